@@ -85,8 +85,17 @@ func TestC14_SecKeyPubKey(t *testing.T) {
 
 // genPubBytes draws 33 bytes covering the valid and every invalid class.
 func genPubBytes(t *rapid.T) (b []byte, class string) {
-	mode := rapid.IntRange(0, 6).Draw(t, "pmode")
+	mode := rapid.IntRange(0, 8).Draw(t, "pmode")
 	switch mode {
+	case 7, 8: // tiny x or x just below p: y^2 = x^3+7 is tiny (or just below p), so the unreduced field values inside the
+		// point arithmetic sit right at the modulus, where a carry in the reduction is easiest to lose
+		k := big.NewInt(int64(rapid.IntRange(1, 4096).Draw(t, "tinyx")))
+		x := k
+		if mode == 8 {
+			x = new(big.Int).Sub(curve.P, k)
+		}
+		b = append([]byte{byte(2 + rapid.IntRange(0, 1).Draw(t, "par"))}, b32(x)...)
+		return b, "tiny_or_near_p_x"
 	case 0:
 		d := genValidScalar().Draw(t, "d")
 		return curve.PubKey(d), "valid"
@@ -279,6 +288,15 @@ func genSigCase(t *rapid.T) (pub []byte, m *big.Int, sig cipher.Sig, class strin
 	case 4:
 		rr = new(big.Int).Set(rapid.SampledFrom(sEdges).Draw(t, "redge"))
 		class = "r_edge"
+		if rapid.Bool().Draw(t, "rtiny") {
+			// r is the x coordinate of the point the recovery starts from: anyone can choose it
+			rr = big.NewInt(int64(rapid.IntRange(1, 4096).Draw(t, "tinyr")))
+			if ss.Cmp(curve.HalfN) > 0 {
+				ss = new(big.Int).Sub(curve.N, ss)
+			}
+			recid = rapid.IntRange(0, 1).Draw(t, "tinyrecid")
+			class = "r_tiny"
+		}
 	case 5:
 		ss = new(big.Int).Set(rapid.SampledFrom(sEdges).Draw(t, "sedge"))
 		class = "s_edge"
